@@ -1,0 +1,16 @@
+//go:build verif
+// +build verif
+
+package capnp
+
+// VerifYield, when set by the verification harness (/verif), is called at
+// the yield points marked in the library with the name of the site.  The
+// installed function may block: it is used both to perturb schedules and
+// to force a particular interleaving.  Compiled only with -tags verif.
+var VerifYield func(site string)
+
+func verifYield(site string) {
+	if f := VerifYield; f != nil {
+		f(site)
+	}
+}
